@@ -297,10 +297,12 @@ def finish (s : St V) : Option (Decoded V) :=
   if n == 0 then none
   else if ops.all (fun o => o.loc.all (· < n)) then some ⟨n, s.cregs, ops⟩ else none
 
+/-- `parse` (after the lexer) + `visit_topdown` + `get_circuit` -/
+def decodeToks (A : Arith V) (table : List BuiltinDef) (ts : List Tok) : Option (Decoded V) :=
+  (parseProgram ts).bind fun ss => (elabStmts A { table := table } ss).bind finish
+
 /-- `decode(source)` -/
 def decode (A : Arith V) (table : List BuiltinDef) (src : String) : Option (Decoded V) :=
-  (lex src).bind fun ts =>
-  (parseProgram ts).bind fun ss =>
-  (elabStmts A { table := table } ss).bind finish
+  (lex src).bind (decodeToks A table)
 
 end BqVerif.Qasm
